@@ -142,7 +142,13 @@ def readToEnd (lex : Lex) : Nat → Stream → List Span → Option ReadResult
 def Stream.measure (s : Stream) : Nat :=
   2 * (s.len - s.off) + (if s.addTrailing && !s.lastEndl then 1 else 0)
 
-/-! ## ConditionChain -/
+/-! ## ConditionChain
+
+`struct ConditionChain(Vec<ConditionBlock>, usize)` since the fixes 03ca601 / 115a619: every open `#if` block
+remembers whether its `#else` has been seen, and the second field is the number of blocks that were open when
+the current file started (`preprocess_included_file` saves it, sets it to the current depth, checks at the end
+of the file that the depth is back there, and restores it).  `switch` works on the slice
+`&mut self.0[self.1..]` — an unchecked slice, modelled as the explicit result `panicSlice`. -/
 
 inductive CS where
   | enabled
@@ -150,71 +156,152 @@ inductive CS where
   | disabledOuter
   deriving DecidableEq, Repr
 
-/-- the directives that touch the chain; `ifD`/`elif` carry the value of their condition -/
+/-- `struct ConditionBlock { state, seen_else }` -/
+structure Block where
+  state : CS
+  seenElse : Bool
+  deriving DecidableEq, Repr
+
+/-- `ConditionChain(self.0, self.1)`; the head of `blocks` is the top of the Rust vector -/
+structure Chain where
+  blocks : List Block
+  base : Nat
+  deriving DecidableEq, Repr
+
+mutual
+/-- the directive lines that touch the chain; `ifD`/`elif` carry the value of their condition; `junk` is a
+    directive line whose first token is neither an identifier nor `if` / `else` (`#3`): `UnknownCommand` in an
+    active block, ignored in a skipped one (fix ed75afa); `incl` is an `#include` of a file with these lines -/
 inductive Dir where
   | ifD (active : Bool)
   | elif (active : Bool)
   | els
   | endif
   | text (id : Nat)
-  deriving DecidableEq, Repr
+  | junk
+  | incl (file : Lines)
+/-- the lines of one file -/
+inductive Lines where
+  | nil
+  | cons (d : Dir) (rest : Lines)
+end
 
 inductive PErr where
   | elseNotMatched
   | endIfNotMatched
   | notFinished
+  | elseAfterElse
+  | elifAfterElse
+  | unknownCommand
+  /-- `&mut self.0[self.1..]` with `self.1 > self.0.len()`: "range start index out of range" -/
+  | panicSlice
   deriving DecidableEq, Repr
 
-/-- `ConditionChain::is_active` (the head of the list is the top of the Rust vector) -/
-def isActive (st : List CS) : Bool := st.all (· == .enabled)
+/-- a file from the list of its lines -/
+def Lines.ofList : List Dir → Lines
+  | [] => .nil
+  | d :: r => .cons d (Lines.ofList r)
 
-/-- `ConditionChain::switch` -/
-def switch (st : List CS) (active : Bool) : Except PErr (List CS) :=
-  match st with
-  | [] => .error .elseNotMatched
-  | v :: rest =>
-    .ok ((match v with
-          | .enabled => .disabledOuter
-          | .disabledInner => if active then .enabled else .disabledInner
-          | .disabledOuter => .disabledOuter) :: rest)
+/-- `ConditionChain::is_active` -/
+def Chain.isActive (c : Chain) : Bool := c.blocks.all (·.state == .enabled)
 
-/-- `ConditionChain::pop` -/
-def pop (st : List CS) : Except PErr (List CS) :=
-  match st with
-  | [] => .error .endIfNotMatched
-  | _ :: rest => .ok rest
+/-- `ConditionChain::push` -/
+def Chain.push (c : Chain) (s : CS) : Chain := { c with blocks := ⟨s, false⟩ :: c.blocks }
 
-/-- one directive (`preprocess_command` restricted to the chain) or text line; returns the new chain
-    and the text ids emitted -/
-def step (st : List CS) : Dir → Except PErr (List CS × List Nat)
+/-- `ConditionChain::switch(active, is_else, ..)`: the blocks of the current file are `self.0[self.1..]`,
+    `last_mut()` of that slice is the innermost block or `None` when the file has no open block -/
+def Chain.switch (c : Chain) (active isElse : Bool) : Except PErr Chain :=
+  if c.blocks.length < c.base then .error .panicSlice
+  else if c.blocks.length = c.base then .error .elseNotMatched
+  else
+    match c.blocks with
+    | [] => .error .elseNotMatched
+    | b :: rest =>
+      if b.seenElse then .error (if isElse then .elseAfterElse else .elifAfterElse)
+      else
+        .ok { c with blocks := ⟨(match b.state with
+            | .enabled => .disabledOuter
+            | .disabledInner => if active then .enabled else .disabledInner
+            | .disabledOuter => .disabledOuter), isElse⟩ :: rest }
+
+/-- `ConditionChain::pop`: only a block of the current file can be closed -/
+def Chain.pop (c : Chain) : Except PErr Chain :=
+  if c.blocks.length > c.base then .ok { c with blocks := c.blocks.tail } else .error .endIfNotMatched
+
+mutual
+/-- one directive (`preprocess_command` restricted to the chain) or text line; returns the new chain and the
+    text ids emitted.  `incl` is `preprocess_included_file`: skipped blocks do not load the file at all. -/
+def step (c : Chain) : Dir → Except PErr (Chain × List Nat)
   | .ifD a =>
-    if isActive st then .ok ((if a then CS.enabled else CS.disabledInner) :: st, [])
-    else .ok (CS.disabledInner :: st, [])
-  | .elif a => match switch st a with | .ok st' => .ok (st', []) | .error e => .error e
-  | .els => match switch st true with | .ok st' => .ok (st', []) | .error e => .error e
-  | .endif => match pop st with | .ok st' => .ok (st', []) | .error e => .error e
-  | .text id => .ok (st, if isActive st then [id] else [])
-
-def run : List Dir → List CS → List Nat → Except PErr (List CS × List Nat)
-  | [], st, out => .ok (st, out)
-  | d :: ds, st, out =>
-    match step st d with
+    if c.isActive then .ok (c.push (if a then .enabled else .disabledInner), [])
+    else .ok (c.push .disabledInner, [])
+  | .elif a => match c.switch a false with | .ok c' => .ok (c', []) | .error e => .error e
+  | .els => match c.switch true true with | .ok c' => .ok (c', []) | .error e => .error e
+  | .endif => match c.pop with | .ok c' => .ok (c', []) | .error e => .error e
+  | .text id => .ok (c, if c.isActive then [id] else [])
+  | .junk => if c.isActive then .error .unknownCommand else .ok (c, [])
+  | .incl f =>
+    if c.isActive then
+      -- `let outer_file_block_count = condition_chain.1; condition_chain.1 = condition_chain.0.len();`
+      match run f { c with base := c.blocks.length } [] with
+      | .error e => .error e
+      | .ok (c2, o) =>
+        -- `if condition_chain.0.len() != condition_chain.1 { return Err(ConditionChainNotFinished) }`
+        if c2.blocks.length ≠ c2.base then .error .notFinished
+        else .ok ({ c2 with base := c.base }, o)
+    else .ok (c, [])
+/-- the lines of a file in order -/
+def run : Lines → Chain → List Nat → Except PErr (Chain × List Nat)
+  | .nil, c, out => .ok (c, out)
+  | .cons d ds, c, out =>
+    match step c d with
     | .error e => .error e
-    | .ok (st', o) => run ds st' (out ++ o)
+    | .ok (c', o) => run ds c' (out ++ o)
+end
 
-/-- a whole file: the chain must be empty at the end (`ConditionChainNotFinished`) -/
-def runFile (ds : List Dir) : Except PErr (List Nat) :=
-  match run ds [] [] with
+/-- `preprocess_initial_file`: the entry file goes through `preprocess_included_file` with an empty chain;
+    afterwards the chain must be empty (`ConditionChainNotFinished`) -/
+def runFile (f : Lines) : Except PErr (List Nat) :=
+  match step ⟨[], 0⟩ (.incl f) with
   | .error e => .error e
-  | .ok (st, out) => if st.isEmpty then .ok out else .error .notFinished
+  | .ok (c, out) => if c.blocks.isEmpty then .ok out else .error .notFinished
 
-/-- what the property needs of the chain, by depth alone: the depth after the directives or the error -/
-def depthSpec : List Dir → Nat → Except PErr Nat
-  | [], d => .ok d
-  | .ifD _ :: ds, d => depthSpec ds (d + 1)
-  | .elif _ :: ds, d => if d = 0 then .error .elseNotMatched else depthSpec ds d
-  | .els :: ds, d => if d = 0 then .error .elseNotMatched else depthSpec ds d
-  | .endif :: ds, d => if d = 0 then .error .endIfNotMatched else depthSpec ds (d - 1)
-  | .text _ :: ds, d => depthSpec ds d
+/-- files without `#include` and without malformed directive lines -/
+def Dir.plain : Dir → Bool
+  | .junk => false
+  | .incl _ => false
+  | _ => true
+
+def Lines.plain : Lines → Bool
+  | .nil => true
+  | .cons d r => d.plain && r.plain
+
+/-- number of lines of the file itself -/
+def Lines.size : Lines → Nat
+  | .nil => 0
+  | .cons _ r => r.size + 1
+
+/-- What the property needs of the chain, by nesting shape alone: the stack of "this open block has seen its
+    `#else`" flags after the lines, or the diagnostic.  The values of the conditions do not occur. -/
+def shapeSpec : Lines → List Bool → Except PErr (List Bool)
+  | .nil, st => .ok st
+  | .cons (.ifD _) r, st => shapeSpec r (false :: st)
+  | .cons (.elif _) r, st =>
+    match st with
+    | [] => .error .elseNotMatched
+    | true :: _ => .error .elifAfterElse
+    | false :: st' => shapeSpec r (false :: st')
+  | .cons .els r, st =>
+    match st with
+    | [] => .error .elseNotMatched
+    | true :: _ => .error .elseAfterElse
+    | false :: st' => shapeSpec r (true :: st')
+  | .cons .endif r, st =>
+    match st with
+    | [] => .error .endIfNotMatched
+    | _ :: st' => shapeSpec r st'
+  | .cons (.text _) r, st => shapeSpec r st
+  | .cons .junk r, st => shapeSpec r st
+  | .cons (.incl _) r, st => shapeSpec r st
 
 end RsslVerif.Model.Progress
